@@ -227,6 +227,12 @@ def make_xi():
                 return self.eval(e["e"], env)
             return super().eval(e, env)
 
+        def binop(self, op, l, r, e):
+            # Option compared with Option (Some(x) is x here, None is None)
+            if op in ("==", "!=") and (l is None or r is None):
+                return (l is None and r is None) == (op == "==")
+            return super().binop(op, l, r, e)
+
         def default_method(self, recv, m, args, e):
             if isinstance(recv, str):
                 if m == "chars":
@@ -333,6 +339,8 @@ def r22e(ctx, run):
         "comment": ("__InternalComment", "//c", {"CommentLeader", "CommentContents"}),
         # a comment runs to the next line feed: a carriage return inside it is part of the comment (a trailing one may count as white space)
         "comment-cr": ("__InternalComment", "//a\rb", {"CommentLeader", "CommentContents"}),
+        # a comment without contents: whatever the sub-lexer emits for it (possibly an empty token) must not disturb the token that follows
+        "comment-bare": ("__InternalComment", "//", {"CommentLeader", "CommentContents"}),
     }
 
     class LI(XI):
